@@ -146,6 +146,37 @@ func (w *vfailWriter) Write(p []byte) (int, error) {
 	return len(p), nil
 }
 
+// vprobeLineLimit measures the stream processor's line limit as the compiled program has it: the smallest length L such that
+// a line of L bytes followed by a newline makes ProcessMongoLogFileFromReader stop with an error (0: none up to 32 MiB).
+func vprobeLineLimit() int {
+	fails := func(n int) bool {
+		data := append(bytes.Repeat([]byte{'x'}, n), '\n')
+		defer func() { _ = recover() }()
+		return ProcessMongoLogFileFromReader(bytes.NewReader(data), io.Discard, nil) != nil
+	}
+	const top = 32 << 20
+	hi := 1024
+	for hi <= top && !fails(hi) {
+		hi *= 2
+	}
+	if hi > top {
+		return 0
+	}
+	lo := hi / 2 // does not fail (or is below the first probe)
+	if hi == 1024 {
+		lo = 0
+	}
+	for hi-lo > 1 {
+		mid := (lo + hi) / 2
+		if fails(mid) {
+			hi = mid
+		} else {
+			lo = mid
+		}
+	}
+	return hi
+}
+
 func vdumpMeta(v any) any {
 	switch t := v.(type) {
 	case nil:
@@ -206,7 +237,7 @@ func vstream(rq *vreq) (res map[string]any) {
 	if err != nil {
 		e = err.Error()
 	}
-	return map[string]any{"r": "done", "err": e, "out": venc(wr.buf.Bytes()), "writes": wr.writes}
+	return map[string]any{"r": "done", "err": e, "toolong": err != nil && errors.Is(err, bufio.ErrTooLong), "out": venc(wr.buf.Bytes()), "writes": wr.writes}
 }
 
 func vatlas(rq *vreq) (res map[string]any) {
@@ -465,6 +496,7 @@ func vserve(rq *vreq, out *bufio.Writer) {
 			"tables":    tables,
 			"TopSearch": TopLevelSearchOperators,
 			"otypes":    map[string]int{"Pipeline": int(Pipeline), "Exempt": int(Exempt), "Redactable": int(Redactable), "FieldName": int(FieldName), "OperatorArray": int(OperatorArray), "OperatorMap": int(OperatorMap), "Namespace": int(Namespace)},
+			"max_token": vprobeLineLimit(),
 			"consts": map[string]any{
 				"RedactedISODate": RedactedISODate, "RedactedString": RedactedString, "RedactedNumber": RedactedNumber,
 				"RedactedBoolean": RedactedBoolean, "RedactedObjectId": RedactedObjectId, "RedactedUUID": RedactedUUID,
